@@ -237,6 +237,13 @@ func TestVerifC11bPipeline(t *testing.T) {
 				changes = []string{"unrelated"}
 			}
 		}
+		if info0.DanglingNS || info1.DanglingNS {
+			// a flow node in a namespace nobody put a request into panics on its own (C13 finding), and
+			// whether the flow gets there can depend on time: nothing here is attributable to an update
+			vf.Class("discarded-dangling-namespace")
+			vf.Case(false, "", nil)
+			return
+		}
 		// the gate: somewhere in the old flow, at the front of the new one
 		nslots := len(info0.Kinds)
 		if fl, ok := body0["flow"].([]interface{}); ok && len(fl) > 0 {
@@ -614,12 +621,26 @@ func TestVerifC11bPipeline(t *testing.T) {
 			vf.Case(false, "", nil)
 			return
 		}
-		if fnd != nil && fnd.differential {
-			// a difference must be reproducible on brand-new pipelines (see the filter-level test)
+		if fnd != nil {
+			// Every finding must reproduce on brand-new pipelines: an environmental hiccup (refused
+			// upstream connection, etcd timeout on a loaded machine) or a time-dependent branch does not.
 			again := scenario(false)
 			if again == nil || again.key != fnd.key {
-				vf.Class("differential-mismatch-not-reproduced")
+				vf.Class("finding-not-reproduced")
 				fnd = nil
+			}
+		}
+		if fnd != nil && !fnd.differential && (nondet0 != "" || nondet1 != "") {
+			// A panic in a time- or random-dependent pipeline is only attributed to the update when
+			// further never-updated twins stay panic-free (the first twins may just have taken the
+			// other branch: e.g. a 1ns pool timeout that usually, but not always, ends the flow early).
+			for i := 0; i < 3 && fnd != nil; i++ {
+				_, ok0, _ := vfC11PipeTwin(env, text0, oldSeq)
+				_, ok1, _ := vfC11PipeTwin(env, text1, newR)
+				if !ok0 || !ok1 {
+					vf.Class("discarded-single-generation-panic", "discarded-single-generation-panic found-late")
+					fnd = nil
+				}
 			}
 		}
 		vf.Case(oldExercised > 0, dk, func() interface{} {
